@@ -94,9 +94,10 @@ class Atmo:  # pylint: disable=too-many-instance-attributes
         self._initializing = True
         self._altitude = PreferredUnits.distance(altitude or 0)
         self._pressure = PreferredUnits.pressure(pressure or Atmo.standard_pressure(self.altitude))
-        self._temperature = PreferredUnits.temperature(temperature or Atmo.standard_temperature(self.altitude))
+        self._temperature = PreferredUnits.temperature(
+            Atmo.standard_temperature(self.altitude) if temperature is None else temperature)
         # If powder_temperature not provided we use atmospheric temperature:
-        self._powder_temp = PreferredUnits.temperature(powder_t or self.temperature)
+        self._powder_temp = PreferredUnits.temperature(self.temperature if powder_t is None else powder_t)
         self._t0 = self.temperature >> Temperature.Celsius
         self._p0 = self.pressure >> Pressure.hPa
         self._a0 = self.altitude >> Distance.Foot
